@@ -201,19 +201,23 @@ def builtin_tables(ctx, rep, prop="C05"):
     rep.check(okm, "C", "%s|C|collect_item_keys|entry" % prop, cfg.where(fck), "each registered entry must be (tree.get_key(), tree.item.get_kind()); extracted %r" % (det,), sample={"entry": det})
 
 
+NAME = ["CAP:type_.name"]   # label of the name being matched inside the predicate closure (set per closure)
+
+
 def atom_of(l):
     """known atoms of the name-matching predicates: EQ, SUF, DOT (possibly negated) or None"""
+    NM = NAME[0]
     neg = False
     while isinstance(l, tuple) and l and l[0] == "not":
         neg = not neg
         l = l[1]
     a = None
-    if isinstance(l, tuple) and l[0] in ("eq", "ne") and set([l[1], l[2]]) == set(["CAP:type_.name", "ELEM"]):
+    if isinstance(l, tuple) and l[0] in ("eq", "ne") and set([l[1], l[2]]) == set([NM, "ELEM"]):
         a = "EQ"
         if l[0] == "ne":
             neg = not neg
     elif isinstance(l, tuple) and l[0] == "call" and l[1].endswith("::ends_with") and len(l[2]) == 2 and l[2][0] == "ELEM" \
-            and l[2][1] == ("fmt", ".{}", (("fmtarg", "display", "CAP:type_.name"),)):
+            and l[2][1] == ("fmt", ".{}", (("fmtarg", "display", NM),)):
         a = "SUF"
     elif isinstance(l, tuple) and l[0] == "call" and l[1].endswith("::contains") and len(l[2]) == 2 and l[2][0] == "ELEM" and l[2][1] in (("const", "int", 46), ("const", "char", "."), ("const", "str", ".")):
         a = "DOT"
@@ -229,6 +233,12 @@ def predicate_table(facts, clo):
     for c in cf["captures"]:
         nm = c["name"].lstrip("*")
         caps[nm] = Opaque("CAP:" + nm)
+    # the name being matched: the closure's only captured string (in resolve_type itself: type_.name; in a helper: its name parameter,
+    # which matching_rules traces back to type_.name at the call site)
+    strs = [c["name"].lstrip("*") for c in cf["captures"] if c["ty"] in ("std::string::String", "&str", "str", "&std::string::String")]
+    if len(strs) != 1:
+        return "the predicate closure captures %d strings (expected exactly the name being matched)" % len(strs)
+    NAME[0] = "CAP:" + strs[0]
     try:
         ps, _ = run_closure(facts, clo, caps, [Ref(Cell(Ref(Cell(Opaque("ELEM", "std::string::String")))))],
                             pure_fns=["rules::aidl::core::str::<impl str>::ends_with", "rules::aidl::core::str::<impl str>::contains", "std::str::<impl str>::ends_with", "std::str::<impl str>::contains"])
@@ -264,28 +274,70 @@ def predicate_table(facts, clo):
     return table
 
 
+def passes_type_name(facts, fn, host):
+    """some argument of the call resolve_type -> host is (a view of) type_.name"""
+    body = fn["body"]
+    named = set()
+    changed = True
+    while changed:
+        changed = False
+        for b in body["blocks"]:
+            for st in b["stmts"]:
+                if st["k"] != "assign" or st["lhs"]["p"] or st["lhs"]["l"] in named:
+                    continue
+                rv = st["rv"]
+                pl = rv.get("place") if rv["k"] in ("ref", "copy_for_deref") else (rv["op"].get("place") if rv["k"] in ("use", "cast") and rv["op"]["k"] in ("move", "copy") else None)
+                if pl is None:
+                    continue
+                if pl["l"] == 1 and any(isinstance(e, dict) and e.get("k") == "field" and e.get("name") == "name" for e in pl["p"]):
+                    named.add(st["lhs"]["l"]); changed = True
+                elif pl["l"] in named:
+                    named.add(st["lhs"]["l"]); changed = True
+            t = b["term"]
+            if t["k"] == "call" and not t["dest"]["p"] and t["dest"]["l"] not in named:
+                ci = callee_info_(t)
+                nm = (ci.get("resolved") or ci["def"]) if ci else ""
+                if nm.rsplit("::", 1)[-1] in ("deref", "as_str", "as_ref", "borrow") and t["args"] and t["args"][0]["k"] in ("move", "copy") and t["args"][0]["place"]["l"] in named:
+                    named.add(t["dest"]["l"]); changed = True
+    for b in body["blocks"]:
+        t = b["term"]
+        if t["k"] == "call":
+            ci = callee_info_(t)
+            if ci and (ci.get("resolved") or ci["def"]) == host:
+                return any(a["k"] in ("move", "copy") and a["place"]["l"] in named for a in t["args"])
+    return False
+
+
 def matching_rules(ctx, rep, prop="C05"):
     """rule E: the two searches of resolve_type use the name-matching predicates the statement gives"""
     import itertools
     facts = ctx.mir
     fn = facts.fn(RT)
-    body = fn["body"]
     import c11
+    import dataflow
     found = {}
-    for b in body["blocks"]:
-        t = b["term"]
-        if b["cleanup"] or t["k"] != "call":
-            continue
-        ci = callee_info_(t)
-        if not ci:
-            continue
-        name = (ci.get("resolved") or ci["def"])
-        meth = name.rsplit("::", 1)[1]
-        a0 = (ci.get("args") or [""])[0]
-        if meth in ("filter", "find", "position", "any", "find_map") and "hash_set::Iter" in a0 and len(t["args"]) == 2:
-            clo = c11.closure_of_arg(facts, fn, t, 1)
-            if clo:
-                found.setdefault(clo, (meth, t))
+    # resolve_type and the private helpers it calls (a search extracted into a helper function is still the search)
+    reach, _ = dataflow.reachable_fns(facts, [RT])
+    hosts = [RT] + sorted(p for p in reach if p != RT and p.startswith("validation::") and "{closure" not in p and not facts.fns[p].get("derived"))
+    for host in hosts:
+        hf = facts.fns[host]
+        for b in hf["body"]["blocks"]:
+            t = b["term"]
+            if b["cleanup"] or t["k"] != "call":
+                continue
+            ci = callee_info_(t)
+            if not ci:
+                continue
+            name = (ci.get("resolved") or ci["def"])
+            meth = name.rsplit("::", 1)[1]
+            a0 = (ci.get("args") or [""])[0]
+            if meth in ("filter", "find", "position", "any", "find_map") and "hash_set::Iter" in a0 and len(t["args"]) == 2:
+                clo = c11.closure_of_arg(facts, hf, t, 1)
+                if clo:
+                    found.setdefault(clo, (meth, t))
+                    if host != RT:
+                        rep.check(passes_type_name(facts, fn, host), "E", "%s|E|%s|called-with-name" % (prop, host), cfg.where(hf),
+                                  "the search helper %s must be called from resolve_type with the name of the type being resolved" % host)
     rep.floor("E", "name-matching predicates in resolve_type", len(found), 2)
     specs = {"import": lambda EQ, SUF, DOT: EQ or SUF, "forward declaration": lambda EQ, SUF, DOT: EQ and not DOT}
     seen = set()
